@@ -186,19 +186,24 @@ def check_dropna(nap, ts, keep, res, model_sup, cls="Tsd", support="wide"):
     else:
         kw = {"time_support": nap.IntervalSet(G.arr([a for a, _ in support]), G.arr([b for _, b in support]))}
     if cls == "Tsd":
-        d = np.array([float(i + 1) if k else np.nan for i, k in enumerate(keep)])
+        # kept rows hold finite values and, every third one, an infinity (an infinite value is not a NaN: the row is kept)
+        d = np.array([(float(i + 1) if i % 3 != 1 else (np.inf if i % 2 else -np.inf)) if k else np.nan for i, k in enumerate(keep)])
         x = nap.Tsd(G.arr(ts), d, **kw)
     elif cls == "TsdFrame":
         d = np.arange(2 * n, dtype=float).reshape(n, 2) + 1
         for i, k in enumerate(keep):
             if not k:
                 d[i, i % 2] = np.nan
+            elif i % 3 == 0:
+                d[i, 0], d[i, 1] = np.inf, -np.inf          # infinities of both signs in one kept row (seed C07-5: NaN rows found through the row sum)
         x = nap.TsdFrame(G.arr(ts), d, columns=["a", "b"], **kw)
     else:
         d = np.arange(4 * n, dtype=float).reshape(n, 2, 2) + 1
         for i, k in enumerate(keep):
             if not k:
                 d[i, i % 2, (i // 2) % 2] = np.nan
+            elif i % 3 == 0:
+                d[i, 0, 0], d[i, 1, 1] = np.inf, -np.inf
         x = nap.TsdTensor(G.arr(ts), d, **kw)
     if len(x) != n:
         raise RuntimeError("C07 generator: the constructor dropped samples: %r" % (inp,))
